@@ -23,9 +23,9 @@ FEATURES = {
     "kv1": ["ident", "uint", "str", "str_semi", "str_comma", "str_escq", "mod_q", "mod_pct", "short", "short_q"],
     "kv2": ["field", "bool", "str", "float", "mod_debug", "mod_display", "mod_err", "short_pct"],
     "msg": ["plain", "placeholder", "escquote", "unicode", "reflike_inside", "commentish", "parens", "empty",
-            "braces", "bang", "macrotext"],
+            "braces", "bang", "macrotext", "lead_digit", "lead_bracket", "lead_space", "lead_backslash"],
     "trail": ["none", "pos1", "pos2", "named", "str"],
-    "lay": ["tight", "space", "nl", "blockc", "linec", "tabs"],
+    "lay": ["tight", "space", "nl", "nl0", "blockc", "linec", "tabs"],
     "pre": ["bol", "indent", "brace", "semi", "arrow", "closure", "call", "stmt", "strlit", "charlit", "eq",
             "uni_indent", "kw_return", "kw_break", "ident_comment"],
     "post": ["semi", "paren", "comma", "brace", "eof"],
@@ -81,6 +81,10 @@ def msg_text(cls, marker, rnd):
         "braces": "{}%s{{}}" % m,
         "bang": "%s wow! done!( ok" % m,
         "macrotext": "%s info!(x) warn!( error!" % m,
+        "lead_digit": "5 apples %s" % m,
+        "lead_bracket": "] closing first [ %s" % m,
+        "lead_space": "  \t%s after layout" % m,
+        "lead_backslash": "\\n%s after an escape \\t" % m,
     }[cls]
 
 
@@ -90,6 +94,7 @@ def lay(cls, rnd, eol, indent="    "):
         "tight": "",
         "space": " ",
         "nl": eol + indent,
+        "nl0": eol,                      # continuation lines starting in column 1
         "blockc": " /* c, c; c */ ",
         "linec": " // c, c; (c" + eol + indent,
         "tabs": "\t \t",
@@ -170,7 +175,7 @@ def build_stmt(feat, marker, rnd, macros=None, eol="\n", ref_id=None, kv_ref=Non
         parts.append(("sep", ","))
         parts.append(("lay", L() or " "))
         parts.append(("trail", t))
-    parts.append(("lay", L() if feat["lay"] in ("space", "nl", "tabs") else ""))
+    parts.append(("lay", L() if feat["lay"] in ("space", "nl", "nl0", "tabs") else ""))
     parts.append(("close", ")"))
 
     st = Stmt()
